@@ -81,16 +81,25 @@ def run(ctx):
     if g_ is not None:
         # no-lock case with nothing missing: return Ok before the counter exists
         ok = False
+        from ..common import trace_bool, bool_switch_targets, return_values
+        gp = Prov(g_)
         for bb in sorted(g_.reachable_blocks()):
             t = g_.term(bb)
             if t["k"] == "switch":
-                from ..common import trace_bool, bool_switch_targets, return_values
                 k, pl, neg = trace_bool(g_, t["discr"])
-                if k == "bin" and pl["rv"]["op"] == "Eq" and (op_const(pl["rv"]["b"]) or {}).get("int") == 0:
+                if k == "bin" and (op_const(pl["rv"]["b"]) or {}).get("int") in (0, 1):
+                    org = gp.origins_op(pl["rv"]["a"])
+                    if not any(o[0] == "call" and o[1].matches(r"process_references$") and "NextReferenceIdProcessor" in o[1].full for o in org):
+                        continue
                     tt, ft = bool_switch_targets(g_, bb)
                     if neg:
                         tt, ft = ft, tt
-                    region = cfg.reach(g_, [tt])
+                    form = (pl["rv"]["op"], (op_const(pl["rv"]["b"]) or {}).get("int"))
+                    zero_arm = {("Eq", 0): tt, ("Ne", 0): ft, ("Gt", 0): ft, ("Lt", 1): tt, ("Ge", 1): ft, ("Le", 0): tt}.get(form)
+                    if zero_arm is None:
+                        continue
+                    other = ft if zero_arm == tt else tt
+                    region = cfg.reach(g_, [zero_arm], avoid=[other])
                     news = g_.calls_to(r"atomic::Atomic::<u32>::new$")
                     ok = not any(c.bb in region for c in news) and not any(c.bb in region for c in g_.calls_to(r"cache_next_reference_id$"))
         ctx.check(ok, P, "nothing-missing-no-lock-write", "without a lock, a tree with nothing missing ends before the counter or the lock write", g_.where())
